@@ -109,7 +109,9 @@ func provValues() map[string]interface{} {
 		"vint": int64(3), "vfloat": 1.5, "vstr": "ab", "vbool": true, "vnil": nil, "vzero": int64(0),
 		"vlist": []interface{}{int64(1), int64(2)}, "vmap": map[interface{}]interface{}{"k": int64(1)},
 		"vgofn": func(x ...interface{}) int64 { return int64(len(x)) },
-		"vchan": ch, "vptr": &seven, "vdur": 1500 * time.Nanosecond, "vurl": url.Values{"k": {"v"}}, "vcel": provCelsius(100), "vmapnil": map[interface{}]interface{}{"k": nil}, "vone": int64(1), "vbig": int64(9007199254740993), "vbig0": int64(9007199254740992),
+		"vchan": ch, "vptr": &seven, "vdur": 1500 * time.Nanosecond, "vurl": url.Values{"k": {"v"}}, "vcel": provCelsius(100), "vmapnil": map[interface{}]interface{}{"k": nil}, "vone": int64(1), "vbig": int64(9007199254740993),
+		// typed nil values: nil whatever wrapper they travel in
+		"vnilmapT": map[string]int64(nil), "vnilsliceT": []int64(nil), "vnilptrT": (*int64)(nil), "vnilfuncT": (func())(nil), "vnilchanT": (chan int64)(nil), "vbig0": int64(9007199254740992),
 	}
 }
 
@@ -132,7 +134,7 @@ func streamProv(o *Out, r *rand.Rand, n int, thorough bool) {
 				Detail: fmt.Sprintf("calls that reached another function than their operand evaluated to: %v (err %v, panic %v)", out.val, out.err, out.panicVal)})
 		}
 	}
-	valNames := []string{"vint", "vfloat", "vstr", "vbool", "vnil", "vzero", "vlist", "vmap", "vfn", "vgofn", "vchan", "vptr", "vone", "vbig", "vbig0", "vdur", "vurl", "vcel", "vmodule", "vmapnil"}
+	valNames := []string{"vint", "vfloat", "vstr", "vbool", "vnil", "vzero", "vlist", "vmap", "vfn", "vgofn", "vchan", "vptr", "vone", "vbig", "vbig0", "vdur", "vurl", "vcel", "vmodule", "vmapnil", "vnilmapT", "vnilsliceT", "vnilptrT", "vnilfuncT", "vnilchanT"}
 	run := func(src string) (vmResult, bool) {
 		stmt, err := parser.ParseSrc(src)
 		if err != nil {
@@ -214,7 +216,7 @@ func streamProv(o *Out, r *rand.Rand, n int, thorough bool) {
 				names := []string{}
 				skip := false
 				for _, pi := range chain {
-					if vn == "vnil" && !provs[pi].nilSafe {
+					if (vn == "vnil" || strings.HasPrefix(vn, "vnil") && strings.HasSuffix(vn, "T")) && !provs[pi].nilSafe {
 						skip = true
 					}
 					x = provs[pi].wrap(x)
